@@ -1,5 +1,6 @@
 import Cuke.Lemmas.Sched
 import Cuke.Model.SchedLts
+import Cuke.Props.C06
 import Cuke.Lemmas.SchedLts
 /-!
 # C08 — Fail-fast stops dispatching after the first final failure, yet closes cleanly
@@ -74,5 +75,35 @@ theorem ingest_after_stop_flagged (c : SCfg) (s : SState) (f : Nat) (h : s.parse
 /-! ## Non-vacuity -/
 example : tripFailFast true true false = true := rfl
 example : (getBatch (fun _ => true) Slots.brk.ask ⟨[], [⟨1, ⟨0, none, 1⟩, false, none, none⟩]⟩).1 = [] := by decide
+
+/-! ## Over whole runs of the scheduler LTS -/
+
+open Cuke.SchedInv in
+/-- **No dispatch while fail-fast is tripped, in every accepted run**: if the log is accepted without a
+    K / I / Q disagreement, a dispatch that happens while the slot counter is `Break` dispatches nothing
+    (`get(Some(0))` returned an empty batch) — whatever is queued, ready or retried at that moment. -/
+theorem lts_no_dispatch_while_tripped (c : SCfg) (pre suf : List Label) (n : Nat) (sl : Slots)
+    (hg : Good (accept c (pre ++ Label.disp n sl :: suf)) = true)
+    (hbrk : (accept c pre).slots = .brk) : n = 0 := by
+  -- Good up to and including the dispatch
+  have hgd : Good (stepL c (accept c pre) (.disp n sl)) = true := by
+    simp only [accept, foldl_append, foldl_cons] at hg
+    exact Cuke.C06.good_foldl_mono c suf _ hg
+  have hgp : Good (accept c pre) = true := good_step_mono c _ _ hgd
+  have hinv := Cuke.C06.lts_slots_invariant c pre hgp
+  -- peel the dispatch checks (stages of `stepL … (.disp …)`)
+  rw [disp_eq] at hgd
+  have hg5 : Good (disp5 (accept c pre) n sl) = true := hgd
+  obtain ⟨_, hg4⟩ := good_chk _ _ _ _ (Or.inl rfl) hg5
+  obtain ⟨hb4, hg3⟩ := good_chk _ _ _ _ (Or.inl rfl) hg4
+  have hg1 : Good (disp1 (accept c pre)) = true := hg3
+  obtain ⟨_, hph⟩ := good_mono_inPhase _ _ _ (good_ced _ _ hg1)
+  have hphase : (accept c pre).phase = .afterGet2 := by
+    simp only [List.contains_cons, List.contains_nil, Bool.or_false, beq_iff_eq] at hph; exact hph
+  have hb := hinv.2.2 hphase 0 (by rw [hbrk]; rfl)
+  have fb : (disp3 (accept c pre)).batch = (accept c pre).batch := by simp [disp3, disp1]
+  have : n = (accept c pre).batch.length := by
+    have := hb4; rw [fb] at this; simpa using this
+  omega
 
 end Cuke.C08
